@@ -503,6 +503,8 @@ class World:
     def m_get_upgrade_change_info(self, ctx, a, comp):
         if ctx.st.world.get('all_upgrades_active'):
             return self.fut(ctx, a, lambda ex, s2, fut: [(None, ok(some(Obj('ChangeInfo'))))])
+        if ctx.st.world.get('no_upgrade_active'):
+            return self.fut(ctx, a, lambda ex, s2, fut: [(None, ok(none()))])
         return self.getter(ctx, a, 'upgrade_change', ctx.args[1:3], lambda v, p: ok(self.opt_obj('Option<ChangeInfo>', Obj('ChangeInfo'), p)))
 
     # app -------------------------------------------------------------------------------------------------------------
@@ -606,8 +608,38 @@ def _install_extra(cls):
         st.world['validator_updates'] = []
         st.log.append(('write', 'validator_updates', None, None, False, self.state_token(st, ctx.args[0])))
         return [(None, ())]
+    # pre-Aspen validator storage: one ValidatorSet object (world['pre_aspen_set'] = list of (address bv160, ValidatorUpdate object); None = deleted)
+    def _set_obj(self, ex, entries):
+        inner = M.new_map('BTreeMap<[u8; 20], ValidatorUpdate>', [(k, ex.copy_val(v)) for k, v in entries])
+        vs = Obj('authority::ValidatorSet'); vs.fields[(None, 0)] = inner
+        return vs
+
+    def m_pre_aspen_get_validator_set(self, ctx, a, comp):
+        def alts(ex, s2, fut):
+            cur = s2.world.get('pre_aspen_set')
+            s2.log.append(('read', 'pre_aspen_set', None))
+            if cur is None:
+                return [(None, err())]
+            return [(None, ok(_set_obj(self, ex, cur)))]
+        return self.fut(ctx, a, alts)
+
+    def m_pre_aspen_put_validator_set(self, ctx, a, comp):
+        st = ctx.st
+        vs = self.ex.deref_val(st, ctx.args[1])
+        st.world['pre_aspen_set'] = list(vs.fields[(None, 0)].attrs['items'])
+        st.log.append(('write', 'pre_aspen_set', None, None, True, self.state_token(st, ctx.args[0])))
+        return [(None, ok(()))]
+
+    def m_aspen_upgrade_remove_validator_set(self, ctx, a, comp):
+        st = ctx.st
+        st.world['pre_aspen_set'] = None
+        st.log.append(('write', 'pre_aspen_set', None, None, False, self.state_token(st, ctx.args[0])))
+        return [(None, ok(()))]
     cls.m_get_block_fees = m_get_block_fees
     cls.m_clear_block_validator_updates = m_clear_block_validator_updates
+    cls.m_pre_aspen_get_validator_set = m_pre_aspen_get_validator_set
+    cls.m_pre_aspen_put_validator_set = m_pre_aspen_put_validator_set
+    cls.m_aspen_upgrade_remove_validator_set = m_aspen_upgrade_remove_validator_set
 
 
 _install_extra(World)
